@@ -54,9 +54,9 @@ structure Defects where
   mapKeyExact : Bool
   /-- checker `fieldType`/`methodType` accept a member of a map whatever its key type -/
   mapMemberAnyKey : Bool
-  /-- checker `fieldType` dereferences every pointer level, `fetch` only one and only towards a
-      struct (`**struct`, `*map`) -/
-  derefAllLevels : Bool
+  /-- `fetch` follows one pointer level, and only towards a struct, while the checker's `fieldType`
+      dereferences every level (`**struct`, `*map` members are accepted but not fetchable) -/
+  fetchDerefOnce : Bool
   deriving DecidableEq, Repr
 
 def Defects.asIs : Defects := ⟨true, true, true, true, true, true, true, true⟩
@@ -272,15 +272,18 @@ def stringKeyOk (d : Defects) (k : Ty) : Bool :=
 
 def Ty.mapKey? (t : Ty) : Option Ty := match t.core with | .map k _ => some k | _ => none
 
-/-- the value `fetch` looks into: through one pointer when it points to a struct -/
-def Ty.fetchBase (t : Ty) : Ty :=
-  if t.kind == .ptr && t.derefOnce.kind == .struct then t.derefOnce else t
+/-- the value `fetch` looks into: as written, through one pointer when it points to a struct;
+repaired, through every pointer level (as the checker assumes) -/
+def Ty.fetchBase (d : Defects) (t : Ty) : Ty :=
+  if d.fetchDerefOnce then
+    (if t.kind == .ptr && t.derefOnce.kind == .struct then t.derefOnce else t)
+  else t.deref
 
 /-- `fieldType` of checker/types.go -/
 def fieldType (d : Defects) : Nat → Ty → String → Option Ty
   | 0, _, _ => none
   | n + 1, t, name =>
-    let t := if d.derefAllLevels then t.deref else t.fetchBase
+    let t := t.deref
     match t.kind with
     | .iface => some interfaceType
     | .map =>
@@ -328,7 +331,7 @@ a slot of static type `τ` is produced; `none` — the run fails ("cannot fetch 
 
 /-- `fetch(from, name)` for a non-environment value of static type `t` -/
 def fetchTy (d : Defects) (t : Ty) (name : String) : Option Ty :=
-  let t := t.fetchBase
+  let t := t.fetchBase d
   match t.core with
   | .map k v => if stringKeyOk d k then some v else none
   | .struct _ =>
@@ -347,7 +350,7 @@ def fetchEnv (d : Defects) (e : Env) (name : String) : Option (Option Ty) :=
       | some kv => some kv.2
       | none => some none
     else
-      match t.fetchBase.core with
+      match (t.fetchBase d).core with
       | .map k v =>
         if stringKeyOk d k then
           match e.entries.find? (fun kv => kv.1 = name) with
